@@ -126,7 +126,11 @@ def worker(ctx):
         if case_id % 4 == 1:
             cfg.p_options = 0.0  # the marker adds 16 bits: a max_bytes option fitted to the traditional size would reject the control
         cfg.n_imports = (1, 1) if case_id % 3 == 0 else (0, 0)
+        if case_id % 8 >= 4:
+            cfg.p_same_short_name = 0.6   # `Telemetry.Sample` and `Command.Sample`: -F Sample names both
         root = gen.gen_schema(rng, cfg)
+        if case_id % 8 == 4:
+            gen.add_same_name_shapes(root, rng, ext_ok=False)
         mode = ["filter", "refuse-extensible", "refuse-args", "endian"][case_id % 4]
         if mode in ("filter", "endian") and case_id % 8 < 4:
             add_aligned_element_shapes(root, rng)
@@ -253,6 +257,10 @@ def worker(ctx):
             for (m, e) in pairs[:2]:
                 res.count("container_element_filter_pairs")
                 subsets += [[m.name], [e.name], [m.name, e.name]]
+            shared = sorted({n for n in simple if simple.count(n) > 1})
+            for n in shared[:2]:
+                res.count("filters_naming_a_short_name_shared_by_several_messages")
+                subsets.append([n])
             hdecl_all = {(k, n) for k, n in C_DECL.findall(h_all)}
             if hdecl_all != exp_all:
                 res.violation("unfiltered-declarations", "unfiltered header does not declare Encode/Decode for every message", wit)
@@ -307,5 +315,6 @@ if __name__ == "__main__":
               "other two, Go unaffected)"),
         assumptions=["functions are delimited textually by the generator's own layout (signature line ... closing brace at column 0)"],
         required_counters=["cli_runs", "refusals_checked", "filter_cases_checked", "filter_functions_expected", "endian_triples_compared", "endian_bodies_compared",
-                           "mode:refuse-extensible", "mode:refuse-args", "container_element_filter_pairs", "filtered_function_texts_compared", "cases_with_aligned_element_arrays"],
+                           "mode:refuse-extensible", "mode:refuse-args", "container_element_filter_pairs", "filtered_function_texts_compared", "cases_with_aligned_element_arrays",
+                           "filters_naming_a_short_name_shared_by_several_messages"],
     )
